@@ -44,11 +44,12 @@ type vPPEntry struct {
 }
 
 type vPPVersions struct {
-	Kind      string     `json:"kind"`
-	Local     []vPPEntry `json:"local"`
-	Remote    []vPPEntry `json:"remote"`
-	Accepted  bool       `json:"accepted"`
-	NoOverlap bool       `json:"noOverlap"`
+	Kind           string     `json:"kind"`
+	Local          []vPPEntry `json:"local"`
+	Remote         []vPPEntry `json:"remote"`
+	Accepted       bool       `json:"accepted"`
+	NoOverlap      bool       `json:"noOverlap"`
+	Unintelligible bool       `json:"unintelligible"`
 }
 
 // vRunVersions feeds one version matrix to the real verifyProtocol
@@ -86,8 +87,16 @@ func vRunVersions(t *testing.T, id int, v vPPVersions) map[string]any {
 			Incarnation: 1, State: st, Vsn: u8(e.Vsn)})
 	}
 	err := nd.m.verifyProtocol(remote)
+	// the order in which a node holds its members is arbitrary (it is reshuffled at every probe wrap)
+	nd.m.nodeLock.Lock()
+	for i, j := 0, len(nd.m.nodes)-1; i < j; i, j = i+1, j-1 {
+		nd.m.nodes[i], nd.m.nodes[j] = nd.m.nodes[j], nd.m.nodes[i]
+	}
+	nd.m.nodeLock.Unlock()
+	err2 := nd.m.verifyProtocol(remote)
 	return map[string]any{"ev": "PPVersions", "case": id, "kind": "versions", "local": v.Local, "remote": v.Remote,
-		"modelAccepted": v.Accepted, "noOverlap": v.NoOverlap, "accepted": err == nil, "note": note}
+		"modelAccepted": v.Accepted, "noOverlap": v.NoOverlap, "unintelligible": v.Unintelligible, "accepted": err == nil,
+		"acceptedSwapped": err2 == nil, "note": note}
 }
 
 type vPPLine struct {
